@@ -145,3 +145,33 @@ pub fn finish_model_checking(report: &Report, totals: &Mutex<Totals>, rule: &str
 pub fn v(clause: &str, detail: impl Into<String>) -> Violation {
     Violation::new(clause, detail, serde_json::Value::Null)
 }
+
+/// `--replay <path>`: re-run ONE recorded schedule of a scenario (no exploration) and print what
+/// happens. `resolve` rebuilds the scenario closure from its recorded name and parameters.
+pub fn replay(
+    path: &str,
+    resolve: impl Fn(&str, &serde_json::Value) -> Option<Box<dyn Fn() -> ExecResult>>,
+) -> i32 {
+    let j = vcommon::load_replay(path);
+    let r = &j["replay"];
+    let name = r["scenario"].as_str().unwrap_or("");
+    let choices: Vec<usize> = r["choices"]
+        .as_array()
+        .map(|a| a.iter().map(|x| x.as_u64().unwrap_or(0) as usize).collect())
+        .unwrap_or_default();
+    let Some(f) = resolve(name, &r["params"]) else {
+        vcommon::machinery_failure(&format!("replay: unknown scenario {name:?}"));
+    };
+    println!("replaying scenario {name} params {} with choices {choices:?}", r["params"]);
+    let res = confirm_deterministic(&choices, &f);
+    for l in &res.log {
+        println!("  log: {l}");
+    }
+    if res.violations.is_empty() {
+        println!("no violation in this execution");
+    }
+    for v in &res.violations {
+        println!("violation: clause={} {}", v.clause, v.detail);
+    }
+    0
+}
